@@ -337,6 +337,15 @@ theorem C15_hubbard_def_spinful {K : Type} [Ring K] (h : ℕ) (adj : ℕ → ℕ
   · intro a b c d
     simp only [hubbardInt, if_true, hh]
 
+/-- both branches together: the coefficient tensors of `FermiHubbardHamiltonian.as_field_operator` -/
+theorem C15_hubbard_def {K : Type} [Ring K] (n : ℕ) (adj : ℕ → ℕ → ℤ) (t u : K) (h01 : ∀ i j, adj i j = 0 ∨ adj i j = 1) :
+    ((∀ i j, hubbardKin n adj t false i j = if adj i j ≠ 0 then -t else 0) ∧
+     (∀ a b c d, hubbardInt n adj u false a b c d = if (a, c) ∈ edgeSet n adj ∧ b = a ∧ d = c then u else 0)) ∧
+    ((∀ s s' i j, i < n → j < n →
+        hubbardKin (n + n) adj t true (s * n + i) (s' * n + j) = if s = s' ∧ adj i j ≠ 0 then -t else 0) ∧
+     (∀ a b c d, hubbardInt (n + n) adj u true a b c d = if a < n ∧ b = a ∧ c = a + n ∧ d = a + n then u else 0)) :=
+  ⟨C15_hubbard_def_spinless n adj t u h01, C15_hubbard_def_spinful n adj t u (fun i j _ _ => h01 i j)⟩
+
 /-- the two terms of `as_field_operator` are number-balanced: as many creators as annihilators
 (the same holds for the molecular Hamiltonian) -/
 theorem C15_hubbard_number_balanced :
